@@ -144,6 +144,38 @@ theorem cycle_hidden_by_self_base :
     (sortDataModels 1000 [⟨0, [1], [1]⟩, ⟨1, [0, 1], [0, 1]⟩]).map (·.sorted.map (·.path)) = .ok [0, 1] := by
   decide
 
+/-! ### `Parser.__sort_models` (`--keep-model-order`) -/
+
+/-- Whenever the alphabetical pass returns, it returns a permutation of the module's models. -/
+theorem sortModels_perm (imp : List (List Nat)) (f : Nat) (l l' : List Named)
+    (h : sortModels imp f l = some l') : l'.Perm l :=
+  ((swapLoop_spec imp f _ l' h).1).trans (sortBy_perm _ l)
+
+/-- …and in the order it returns every base class of a model that is a class of the module (and
+not the model itself) is either imported or stands before the model. (The loop never examines the
+last position; a base of the last model that is a class of the module necessarily stands before.) -/
+theorem sortModels_respects_bases (imp : List (List Nat)) (f : Nat) (l l' : List Named)
+    (h : sortModels imp f l = some l') :
+    ∀ p x q, l' = p ++ x :: q → ∀ b ∈ x.bases, b ≠ x.name → b ∈ l'.map (·.name) →
+      b ∈ imp ∨ b ∈ p.map (·.name) := by
+  intro p x q hl b hb hne hbn
+  by_cases hq : q = []
+  · subst hq
+    subst hl
+    simp only [List.map_append, List.map_cons, List.map_nil, List.mem_append, List.mem_singleton] at hbn
+    rcases hbn with hbn | hbn
+    · exact Or.inr hbn
+    · exact absurd hbn hne
+  · have := (swapLoop_spec imp f _ l' h).2 p x q hl hq
+    simp only [basesResolved, List.all_eq_true, Bool.or_eq_true, beq_iff_eq, List.contains_iff_mem] at this
+    rcases this b hb with h1 | h1
+    · exact absurd h1 hne
+    · simp only [List.mem_append, List.mem_reverse] at h1
+      exact h1.symm
+
+example : sortModels [[66, 97]] 10 [⟨[67], [[65]]⟩, ⟨[65], [[66, 97]]⟩, ⟨[66], [[67]]⟩] =
+    some [⟨[65], [[66, 97]]⟩, ⟨[67], [[65]]⟩, ⟨[66], [[67]]⟩] := by decide
+
 /-- The swap loop of `Parser.__sort_models` has no bound of its own: on classes `A(B)`, `B(A, B)`
 it alternates between the two orders for every amount of fuel (the code loops for ever). It relies
 on `sort_data_models` having rejected cyclic inheritance before — which `cycle_hidden_by_self_base`
